@@ -920,6 +920,14 @@ impl<'a> Searcher<'a> {
         buffer_data: Option<&Vec<HashMap<String, String>>>,
         column_expr: &Expr,
     ) -> Variant {
+        // a literal is its own value: its text may spell the cache key of a column or an expression
+        // (`select size, 'Size'`), so it must not be looked up in the per-row cache
+        if column_expr.function.is_none() && column_expr.field.is_none() && column_expr.left.is_none() {
+            if let Some(ref value) = column_expr.val {
+                return Variant::from_signed_string(value, column_expr.minus);
+            }
+        }
+
         let column_expr_str = column_expr.to_string();
 
         if file_map.contains_key(&column_expr_str) {
